@@ -57,7 +57,9 @@ def v1(ctx, rid):
             continue
         reads = [c for c in b.calls if c.name in ('read_exact_at', 'read_exact_at_allocate', 'read_all') and 'File' in c.path]
         offs = [c for c in b.calls if c.name in ('data_offset', 'meta_offset')]
-        if reads and offs:
+        # the checksum covers the data only: a helper that reads just the metadata region (meta_offset, meta_size) has nothing to audit
+        touches_data = [c for c in b.calls if c.name in ('data_offset', 'data_size')]
+        if reads and offs and touches_data:
             key = 'audit-before-return|%s' % f.id
             if S.must(f.id):
                 ctx.ok(rid, key, f.where(), 'audited')
